@@ -20,6 +20,9 @@ pub enum Victim {
     Zst(u64),
     /// the next default-filler destroyed
     Filler,
+    /// a value destroyed while the lazy queue is applied inside `maintain` (removed by a lazy
+    /// remove, replaced by a lazy insert, or refused because its target is dead)
+    LazyVal(u64),
 }
 
 fn comps_at(ex: &Exec, idx: u32, out: &mut Vec<Victim>, zst: &mut u64) {
@@ -38,6 +41,16 @@ fn comps_at(ex: &Exec, idx: u32, out: &mut Vec<Victim>, zst: &mut u64) {
 pub fn predict(ex: &Exec, op: &Op) -> Vec<Victim> {
     let mut out: Vec<Victim> = vec![];
     let mut zst = 0u64;
+    if let OpKind::ByRef(inner) = &op.kind {
+        return predict(
+            ex,
+            &Op {
+                uid: op.uid,
+                kind: (**inner).clone(),
+                fault: op.fault,
+            },
+        );
+    }
     match &op.kind {
         OpKind::DeleteNow(h) => {
             if let Some((hn, e)) = ex.res(*h) {
@@ -66,6 +79,47 @@ pub fn predict(ex: &Exec, op: &Op) -> Vec<Victim> {
             for hn in ex.model.live_handles() {
                 if ex.model.hs[hn].pending_kill {
                     comps_at(ex, ex.model.hs[hn].ent.id(), &mut out, &mut zst);
+                }
+            }
+            // the lazy phase (approximate: effects of earlier queue entries on later ones are
+            // ignored; a victim that is not destroyed simply does not fire)
+            use crate::wmodel::LazyAct;
+            let gone = |hn: usize| ex.model.hs[hn].dead || ex.model.hs[hn].pending_kill;
+            for a in &ex.model.lazy {
+                match a {
+                    LazyAct::Remove { slot, hn } => {
+                        let s = *slot as usize;
+                        if !gone(*hn) && !ex.model.kinds[s].zst() {
+                            if let Some(v) = ex.model.get(s, *hn) {
+                                out.push(Victim::LazyVal(v.0));
+                            }
+                        }
+                    }
+                    LazyAct::Insert { slot, hn, v } => {
+                        let s = *slot as usize;
+                        if ex.model.kinds[s].zst() {
+                            continue;
+                        }
+                        if gone(*hn) {
+                            out.push(Victim::LazyVal(v.0));
+                        } else if let Some(old) = ex.model.get(s, *hn) {
+                            out.push(Victim::LazyVal(old.0));
+                        }
+                    }
+                    LazyAct::InsertAll { slot, items } => {
+                        let s = *slot as usize;
+                        if ex.model.kinds[s].zst() {
+                            continue;
+                        }
+                        for (hn, v) in items {
+                            if gone(*hn) {
+                                out.push(Victim::LazyVal(v.0));
+                            } else if let Some(old) = ex.model.get(s, *hn) {
+                                out.push(Victim::LazyVal(old.0));
+                            }
+                        }
+                    }
+                    _ => {}
                 }
             }
         }
@@ -147,6 +201,7 @@ pub fn predict(ex: &Exec, op: &Op) -> Vec<Victim> {
         Victim::Next(n) => (1, *n),
         Victim::Zst(n) => (2, *n),
         Victim::Filler => (3, 0),
+        Victim::LazyVal(id) => (4, *id),
     });
     out
 }
@@ -163,6 +218,7 @@ pub fn apply_with_fault(ex: &mut Exec, op: &Op) -> R {
         Victim::Next(n) => ledger::arm_fault(ledger::total_vals() + n),
         Victim::Zst(n) => ledger::arm_zst_fault(n),
         Victim::Filler => ledger::arm_filler_fault(),
+        Victim::LazyVal(id) => ledger::arm_fault(id),
     }
     ex.stats.faults_armed += 1;
     {
@@ -199,6 +255,26 @@ pub fn apply_with_fault(ex: &mut Exec, op: &Op) -> R {
                 ));
             }
             ex.stats.faults_fired += 1;
+            if let Victim::LazyVal(_) = victim {
+                // The panic interrupted the lazy queue: how much of it ran is specs' business. The
+                // C19 obligations are checked right here (no double drop so far, every lookup
+                // exposes only live values, join = mask); then the run ends with the world being
+                // dropped, where a second destruction would show.
+                ex.stats.probe("fault_fired_in_lazy_phase_of_maintain");
+                let r = catch_unwind(AssertUnwindSafe(|| post_fault_reads(ex)));
+                ex.abort_after_fault = true;
+                return match r {
+                    Ok(r) => r,
+                    Err(e) => Err(ex.viol(
+                        &["C19"],
+                        "post-fault-panic",
+                        format!(
+                            "after a destructor panicked while the lazy queue was applied, inspecting the world panicked: {}",
+                            crate::util::panic_message(&e)
+                        ),
+                    )),
+                };
+            }
             ex.stats.probe(match &op.kind {
                 OpKind::Clear { .. } => "fault_fired_in_clear",
                 OpKind::DeleteNow(_) | OpKind::DeleteBatch(_) | OpKind::DeleteAll => "fault_fired_in_entity_deletion",
@@ -243,6 +319,58 @@ fn run_plain(ex: &mut Exec, op: &Op) -> R {
             ))
         }
     }
+}
+
+/// The read-side C19 obligations after a caught panic, without touching the model.
+fn post_fault_reads(ex: &mut Exec) -> R {
+    let anomalies = ledger::take_anomalies();
+    if let Some(a) = anomalies.first() {
+        return Err(ex.viol(&["C19"], "ledger-exactly-once", a.clone()));
+    }
+    for s in 0..ex.slots.len() {
+        let kind = ex.model.kinds[s];
+        let mask = ex.slots[s].mask(ex.w());
+        let dump = ex.slots[s].dump(ex.w());
+        if dump.iter().map(|x| x.0).collect::<Vec<u32>>() != mask {
+            return Err(ex.viol(
+                &["C19"],
+                "post-fault-join-vs-mask",
+                format!("slot {} ({}): after the caught panic the join visits {:?} but the mask is {:?}", s, kind.name(), dump, mask),
+            ));
+        }
+        if kind.zst() {
+            continue;
+        }
+        for (i, v) in &dump {
+            if ledger::state(v.0) != Some(ledger::VState::Live) {
+                return Err(ex.viol(
+                    &["C19"],
+                    "read-of-dead-value",
+                    format!(
+                        "slot {} ({}) index {}: after a destructor panicked inside maintain's lazy phase a lookup still returns value {} whose ledger state is {:?}",
+                        s,
+                        kind.name(),
+                        i,
+                        v.0,
+                        ledger::state(v.0)
+                    ),
+                ));
+            }
+        }
+        if let Some(view) = ex.slots[s].slice(ex.w()) {
+            for (pos, v) in &view.items {
+                if ledger::state(v.0) != Some(ledger::VState::Live) {
+                    return Err(ex.viol(
+                        &["C19"],
+                        "read-of-dead-value",
+                        format!("slot {} ({}): slice position {} exposes value {} ({:?})", s, kind.name(), pos, v.0, ledger::state(v.0)),
+                    ));
+                }
+            }
+        }
+    }
+    let _ = ledger::take_drops();
+    Ok(())
 }
 
 /// After a caught injected panic: validate what the world now exposes, adopt it, continue.
